@@ -1,6 +1,7 @@
 from cfg.common import FLOAT_ASSUMPTION, NOTE_COMMON
 
 PROP = {
+    'anchors': [('consist/locomotive/powertrain/fuel_converter.rs', 'solve_energy_consumption'), ('consist/locomotive/powertrain/generator.rs', 'set_pwr_in_req'), ('consist/locomotive/powertrain/electric_drivetrain.rs', 'set_pwr_in_req'), ('consist/locomotive/powertrain/reversible_energy_storage.rs', 'solve_energy_consumption'), ('consist/locomotive/conventional_loco.rs', 'solve_energy_consumption'), ('consist/locomotive/battery_electric_loco.rs', 'solve_energy_consumption'), ('consist/locomotive/locomotive_model.rs', 'solve_energy_consumption'), ('consist/locomotive/locomotive_model.rs', 'set_pwr_aux'), ('consist/consist_model.rs', 'solve_energy_consumption'), ('consist/consist_model.rs', 'get_energy_fuel'), ('consist/consist_model.rs', 'get_net_energy_res')],
     'blocks': ['pt'],
     'proof_modules': ['C01'],
     'namespaces': ['Altrios.Proofs.C01'],
